@@ -180,6 +180,44 @@ def task_source_get_field():
     return col.pack()
 
 
+# ------------------------------------------------------------------ TxElectricWire: the electrodes of the source are the electrodes given
+def task_wire_constructor():
+    """electrodes.TxElectricWire(coordinates, strength) -- executed through the whole cooperative constructor chain (TxElectricWire -> Source -> Wire):
+    the source holds the given strength and, as its points, an array with exactly the contents of the given coordinates (nothing removed, merged or
+    re-ordered: a wire may pass a place twice, a closed loop ends where it starts)."""
+    from .cxutil import UNRECOGNISED
+    col = ob.Collector(PROP, 'electrodes.TxElectricWire')
+    col.default_replay = replay
+    for q in ('electrodes.TxElectricWire', 'electrodes.Source.__init__', 'electrodes.Wire.__init__'):
+        col.function(q)
+    C, S = z3.Real('coordinate_element'), z3.Real('strength')
+
+    def run(ctx):
+        it = cx.Interp(ctx, 'electrodes')
+        co = cx.NDArr(cx.Store('coordinates', C))
+        st = dict(co=co)
+        try:
+            o = it.call(cx.ClassRef('electrodes', 'TxElectricWire'), [co], dict(strength=S))
+        except cx._Raise as e:
+            return 'raise', e.exc, st
+        return 'return', o, st
+    res = cx.explore(run)
+    clause(col, 'some_path_constructs_the_source', res, lambda r: True, select=lambda r: r.outcome == 'return')
+
+    def points(r):
+        if r.outcome != 'return':
+            return None
+        p = r.value.fields.get('_points')
+        if not isinstance(p, cx.NDArr):
+            return UNRECOGNISED('the source does not hold its points as an array')
+        if p.store.val is None:
+            return UNRECOGNISED('the contents of the points are not known to the executor (computed by something outside its model)')
+        s_ = r.value.fields.get('_strength')
+        return z3.And(p.store.val == C, (s_ == S) if cx.is_sym(s_) else z3.BoolVal(s_ is S))
+    clause(col, 'points_hold_exactly_the_given_coordinates_and_the_strength_is_the_given_one', res, points, sample=True)
+    return col.pack()
+
+
 # ------------------------------------------------------------------ get_source_field, source given by its coordinates
 class Coords(cx.Ext, cx.NDArr):
     """an ndarray of source coordinates of which only the number of elements is known (a symbolic integer)"""
@@ -667,7 +705,7 @@ def task_conversions():
 
 def tasks(tier):
     return [('contracts.c0910', 'task_point_source', dict(prop='C10')), ('contracts.c0910', 'task_rotation', dict(prop='C10')),
-            ('contracts.c0910', 'task_dipole_cell', {}), ('contracts.c10', 'task_get_source_field', {}), ('contracts.c10', 'task_source_get_field', {}),
+            ('contracts.c0910', 'task_dipole_cell', {}), ('contracts.c10', 'task_get_source_field', {}), ('contracts.c10', 'task_source_get_field', {}), ('contracts.c10', 'task_wire_constructor', {}),
             ('contracts.c10', 'task_get_source_field_from_coordinates', {}),
             ('contracts.c10', 'task_wire_branch', {}),
             ('contracts.c10', 'task_square_loop', {}), ('contracts.c10', 'task_conversions', {}), ('contracts.c10', 'task_concrete', {})]
